@@ -8,6 +8,10 @@
 //!  * emits `hist` records (compact ids) that bin/propcfg/c20.py turns into Coq cases for the
 //!    `Lsp` model with the lint/fix tables filled by the real linter,
 //!  * emits standard correspondence cases for the `format` and `docend` kernels.
+//! The texts include a *violation-kind family* (see `TEXTS`): lint results with violations that come
+//! from no rule (malformed `noqa` directives, texts the parser rejects), alone and mixed with rule
+//! violations, masked or not, and a text with more than 100 violations — the published list must be
+//! the complete lint result, whatever produced each violation.
 //! `load_config()` reads the working directory, so histories run in worker *processes*, each in
 //! its own directory under `<verif>/.cache/c20-work/`, whose `.sqruff` is rewritten by `WriteDisk`.
 use std::cell::RefCell;
@@ -41,9 +45,9 @@ const CONFIGS: [&str; 5] = [
     "[sqruff]\ndialect = bigquery\nrules = core\n\n[sqruff:indentation]\ntab_space_size = 2\n",
     "[sqruff]\ndialect = ansi\ntemplater = placeholder\n\n[sqruff:templater:placeholder]\nparam_style = colon\nx = 7\n",
 ];
-/// Texts. 0..4 are used by the exhaustive histories: clean, fix shorter in lines, fix longer in
+/// Base texts. 0..4 are used by the exhaustive histories: clean, fix shorter in lines, fix longer in
 /// lines, fix of equal line count.
-const TEXTS: [&str; 15] = [
+const BASE_TEXTS: [&str; 15] = [
     "SELECT a FROM t\n",
     "SELECT a FROM t\n\n\n\n",
     "SELECT a FROM t UNION SELECT b FROM u\n",
@@ -60,6 +64,50 @@ const TEXTS: [&str; 15] = [
     "SELECT a FROM t;\n\nSELECT b FROM u;\n\n\n",
     "SELECT aaaaaaaaaaaaaaaaaaaa, bbbbbbbbbbbbbbbbbbbb, cccccccccccccccccccc, dddddddddddddddddddd FROM some_table_name\n",
 ];
+
+/// Comment directives for the violation-kind family: well-formed and malformed `noqa` forms (line /
+/// range, enable / disable, empty rule lists, block comments, a directive after another comment).
+/// The malformed ones make `IgnoreMask::from_tree` report violations that come from no rule
+/// (`rule: None`): the published diagnostics must contain them too, with no `code`.
+const DIRECTIVES: [&str; 14] = [
+    "-- noqa",
+    "-- noqa:",
+    "-- noqa: LT01,CP01",
+    "-- noqa: disable=",
+    "-- noqa: enable=",
+    "-- noqa: disable=all",
+    "-- noqa: enable=all",
+    "-- noqa: disable=CP01",
+    "-- noqa?",
+    "--noqa:,",
+    "--noqa:disable= ,",
+    "/* noqa: */",
+    "/* noqa: disable= */",
+    "-- x -- noqa:",
+];
+/// Index of the first text of the violation-kind family.
+const KIND0: usize = BASE_TEXTS.len();
+/// All texts: the base texts, then the violation-kind family —
+///  * every directive inline after a statement that has rule violations, and on a line of its own
+///    before that statement (the lint result mixes rule-less and rule violations, masked or not);
+///  * several malformed directives in one text, interleaved with rule violations;
+///  * texts the parser rejects as a whole (`Parser::parse` returns `Err`: a rule-less violation and no tree);
+///  * a long text (many violations, several at one position).
+static TEXTS: std::sync::LazyLock<Vec<&'static str>> = std::sync::LazyLock::new(|| {
+    let mut v: Vec<&'static str> = BASE_TEXTS.to_vec();
+    let mut add = |s: String| v.push(Box::leak(s.into_boxed_str()));
+    for d in DIRECTIVES {
+        add(format!("SeLeCt  a from t {}\n", d));
+        add(format!("{}\nSeLeCt  a from t\n\n\n", d));
+    }
+    add("-- noqa:\nSeLeCt  a from t -- noqa: enable=\nselect b from u  -- noqa: disable=\n\nselect c from v\n".to_string());
+    add("SELECT a FROM t -- noqa: disable=all\nSeLeCt  b from u -- noqa:\n-- noqa: enable=all\nSeLeCt  c from v -- noqa: enable=\n".to_string());
+    add("SELECT (a FROM t\n".to_string());
+    add("SELECT a FROM t)\n\n\n".to_string());
+    add("SeLeCt  a from (select b from u -- noqa:\n".to_string());
+    add((0..40).map(|i| format!("SeLeCt  a{},b from t{} where x  = 1;\n", i, i % 3)).collect::<String>() + "-- noqa:\n\n");
+    v
+});
 
 #[derive(Clone, Copy, Debug, PartialEq, Eq, Hash)]
 enum Op {
@@ -382,6 +430,11 @@ struct Stats {
     histories: usize,
     servers: usize,
     reset_ops: usize,
+    /// final checks of an open document whose expected diagnostics contain one without a code
+    /// (a violation that comes from no rule), and how many such diagnostics were expected / seen published
+    ruleless_final_docs: usize,
+    ruleless_expected: usize,
+    ruleless_published: usize,
 }
 
 /// The specification's state: uri -> latest text, latest configuration, the file on disk;
@@ -485,6 +538,12 @@ impl Runner<'_> {
             let want = self.it.diag_id(&e.diags);
             if !e.diags.is_empty() {
                 nontrivial = true;
+            }
+            let nrl = e.diags.iter().filter(|d| d.2.is_none()).count();
+            if nrl > 0 {
+                self.st.ruleless_final_docs += 1;
+                self.st.ruleless_expected += nrl;
+                self.st.ruleless_published += spec.last_pub.get(&u).and_then(|g| self.it.diags.get(g)).map_or(0, |ds| ds.iter().filter(|d| d.2.is_none()).count());
             }
             // would another configuration / text have given something else? (sensitivity of the check)
             if tab.iter().any(|((c2, t2), e2)| (*c2 != spec.conf || *t2 != t) && e2.diags != e.diags) {
@@ -618,6 +677,25 @@ fn alphabet_reduced() -> Vec<Op> {
         Op::Format(1),
     ]
 }
+/// Alphabet of the `exhaustive-kinds` family: documents whose lint result contains violations that
+/// come from no rule (a malformed directive inline with rule violations; several of them; a text the
+/// parser rejects), against a text with rule violations only, a configuration switch and formatting.
+fn alphabet_kinds() -> Vec<Op> {
+    let inline = KIND0 + 2; // "SeLeCt  a from t -- noqa:"
+    let multi = KIND0 + 2 * DIRECTIVES.len();
+    let unparsed = multi + 2;
+    vec![
+        Op::Open(0, inline),
+        Op::Open(1, multi),
+        Op::Change(0, unparsed),
+        Op::Change(0, 3),
+        Op::Change(1, inline),
+        Op::Close(0),
+        Op::WriteDisk(1),
+        Op::Save(0),
+        Op::Format(0),
+    ]
+}
 fn exhaustive(alpha: &[Op], len: usize, cls: &'static str, out: &mut Vec<Hist>) {
     let n = alpha.len();
     let total = n.pow(len as u32);
@@ -634,14 +712,16 @@ fn exhaustive(alpha: &[Op], len: usize, cls: &'static str, out: &mut Vec<Hist>) 
 fn random_history(rng: &mut Rng, max_cfg: usize) -> Hist {
     let len = rng.range(8, 40);
     let nu = DOC_URIS.len();
-    let nt = TEXTS.len();
+    let nk = TEXTS.len() - KIND0;
+    // 3 of 5 from the base texts, 2 of 5 from the violation-kind family
+    let pick_text = |rng: &mut Rng| if rng.chance(3, 5) { rng.below(KIND0) } else { KIND0 + rng.below(nk) };
     let mut ops = vec![];
     for _ in 0..len {
         let k = rng.below(100);
         let op = if k < 22 {
-            Op::Open(rng.below(nu), rng.below(nt))
+            Op::Open(rng.below(nu), pick_text(rng))
         } else if k < 47 {
-            Op::Change(rng.below(nu), rng.below(nt))
+            Op::Change(rng.below(nu), pick_text(rng))
         } else if k < 57 {
             Op::Close(rng.below(nu))
         } else if k < 67 {
@@ -680,8 +760,19 @@ fn plan(args: &Args) -> Vec<Hist> {
         exhaustive(&full, l, "exhaustive-full", &mut hs);
     }
     exhaustive(&red, lr, "exhaustive-reduced", &mut hs);
-    let mut rng = Rng::new(args.seed);
+    let kinds = alphabet_kinds();
+    for l in 1..=lf {
+        exhaustive(&kinds, l, "exhaustive-kinds", &mut hs);
+    }
+    // every (initial configuration, text): opened, formatted, re-checked under another configuration,
+    // stored in a second document by a change, formatted there
     let nc = n_configs(args);
+    for c0 in 0..nc {
+        for t in 0..TEXTS.len() {
+            hs.push(Hist { cls: "each-text", c0, ops: vec![Op::Open(0, t), Op::Format(0), Op::WriteDisk((c0 + 1) % nc), Op::Save(0), Op::Change(1, t), Op::Format(1)] });
+        }
+    }
+    let mut rng = Rng::new(args.seed);
     for _ in 0..nrand {
         hs.push(random_history(&mut rng, nc));
     }
@@ -730,7 +821,8 @@ fn worker(args: &Args, spec: &str) {
     }
     writeln!(wr, "{}", json!({"t":"wstat","direct":st.direct,"ops":st.ops,"publishes":st.publishes,"formats_open":st.formats_open,
         "formats_shorter":st.formats_shorter,"formats_longer":st.formats_longer,"cfg_rechecks":st.cfg_rechecks,"stale_sensitive":st.stale_sensitive,
-        "histories":st.histories,"servers":st.servers,"reset_ops":st.reset_ops})).unwrap();
+        "histories":st.histories,"servers":st.servers,"reset_ops":st.reset_ops,
+        "ruleless_final_docs":st.ruleless_final_docs,"ruleless_expected":st.ruleless_expected,"ruleless_published":st.ruleless_published})).unwrap();
     writeln!(wr, "{}", json!({"t":"wdone"})).unwrap();
     wr.flush().unwrap();
     let _ = std::env::set_current_dir("/");
@@ -759,7 +851,7 @@ fn gen_docend_texts(args: &Args) -> Vec<(String, &'static str)> {
         let s: String = (0..len).map(|_| *rng.pick(&chars)).collect();
         v.push((s, "docend-random"));
     }
-    for t in TEXTS {
+    for t in TEXTS.iter() {
         v.push((t.to_string(), "docend-texts"));
     }
     v
@@ -773,7 +865,7 @@ fn emit_tables(out: &mut Out, tab: &BTreeMap<(usize, usize), Entry>) {
     }));
     let fix = g_list(tab.iter().filter(|(_, e)| !e.lint_panic).map(|((c, t), e)| g_tuple(&[c.to_string(), t.to_string(), g_utf16(&e.fixed)])));
     out.line(json!({"t":"tables","texts":texts,"names":names,"lint":lint,"fix":fix,
-        "configs":CONFIGS,"texts_j":TEXTS,"uris":DOC_URIS,"save_names":SAVE_NAMES}));
+        "configs":CONFIGS,"texts_j":TEXTS.as_slice(),"uris":DOC_URIS,"save_names":SAVE_NAMES}));
 }
 
 fn format_cases(out: &mut Out, tab: &BTreeMap<(usize, usize), Entry>, only: Option<(usize, usize)>) {
@@ -810,6 +902,16 @@ fn format_cases(out: &mut Out, tab: &BTreeMap<(usize, usize), Entry>, only: Opti
                 g_edits(&es),
                 json!({"input":{"c0":c,"ops":[[0,0,t],[5,0,0]]},"config":CONFIGS[*c],"text":TEXTS[*t],"fixed":e.fixed,"edits":es}),
             );
+        }
+        // how much of the table exercises violations that come from no rule (no diagnostic code)
+        if e.viols.iter().any(|v| v.2.is_none()) {
+            buf.count("table_entries_with_ruleless_violations", 1);
+            if e.viols.iter().any(|v| v.2.is_some()) {
+                buf.count("table_entries_mixing_ruleless_and_rule_violations", 1);
+            }
+        }
+        if e.viols.len() >= 100 {
+            buf.count("table_entries_with_100_or_more_violations", 1);
         }
         // hypothesis of C20_zero_based: the linter's positions are one-based and fit u32
         for (l, p, _, _) in &e.viols {
